@@ -1164,4 +1164,51 @@ def callbackOutcome : CbKind → CbObs
   | .retFrac => .caughtError (ofAscii "RangeError") []        -- 1.5 is not an int
   | .uncaught => .runError (ofAscii "RangeError")
 
+/-! ## scenario table (`zoo`): bridged values of defined Go types, structs by value, embedded pointers, slice
+    fields of bridged structs, non-string map keys, mutating Array methods on bridged slices.
+    Each entry is what the script (and then Go, after `|go:`) observes; `!` marks an error token. -/
+
+def zooModel : List (String × String) :=
+  [("byval_struct_read", "1"),
+   ("byval_struct_write", "!gopanic"),
+   ("nilptr_embedded_read", "!gopanic"),
+   ("nilptr_embedded_write", "!gopanic"),
+   ("defined_int", "!gopanic"),
+   ("defined_int_from_float", "main.zMyInt:5"),
+   ("defined_u8_overflow", "!throw:RangeError"),
+   ("defined_string", "!gopanic"),
+   ("defined_bool", "!gopanic"),
+   ("defined_float", "!gopanic"),
+   ("defined_slice_elem", "!gopanic"),
+   ("defined_key_read", "!gopanic"),
+   ("defined_key_write", "!gopanic"),
+   ("defined_key_param", "!gopanic"),
+   ("ptr_to_value_param", "{C:0 S:[]}"),
+   ("slice_field_push", "3:1,2,3|go:[1 2 3]"),
+   ("slice_field_setlen", "3:1,2,3|go:[1 2 3]"),
+   ("slice_field_shrink", "1:1|go:[1]"),
+   ("slice_field_regrow", "1,2,3|go:[1 2 3]"),
+   ("slice_field_write", "1,9,3|go:[1 9 3]"),
+   ("shadowed_field", "inner,z|go:outer,z"),
+   ("promoted_ptr_read", "ia,0,0|go:0,0,ia"),
+   ("promoted_ptr_write", "ia|go:0,0,ia"),
+   ("unexported_embedded_write", "0|go:0,0,ia"),
+   ("dash_field_write", "0|go:0,0,ia"),
+   ("keys_after_dropped_writes", "A,Skip,Skip,U,ZIn|go:0,0,ia"),
+   ("struct_keys", "Skip,ZIn|go:0,0,ia"),
+   ("int_key_plain", "1,1,5,undefined,true,0,16|go:map[0:5 16:1]"),
+   ("int_key_alias_hex", "1,true|go:map[0:5 16:1]"),
+   ("int_key_alias_underscore", "1|go:map[0:5 16:1]"),
+   ("int_key_alias_plus", "1,undefined|go:map[0:5 16:1]"),
+   ("int_key_alias_negzero", "5|go:map[0:5 16:1]"),
+   ("int_key_write", "2,3|go:map[0:5 7:2 16:3]"),
+   ("int_key_assign_unconvertible", "!throw:TypeError"),
+   ("int_key_delete_unconvertible", "!throw:TypeError"),
+   ("int_key_delete", "true,undefined,true|go:map[0:5]"),
+   ("bool_key", "1,1,undefined,true"),
+   ("bool_key_alias", "1,1,1"),
+   ("slice_unshift", "!throw:TypeError"),
+   ("slice_splice_insert", "!throw:TypeError"),
+   ("slice_mutators", "ok,ok,ok,ok,ok,ok,ok,ok|go:[1 2 3]")]
+
 end OttoVerif.C16
